@@ -44,6 +44,9 @@ func (oracleC04) Step(x *OCtx, t *Trans) []Violation {
 		if p.Cat == "expiry" {
 			out = append(out, viol("C04", "timed-out-request-is-slashed", kind, p.Disc, p.Detail))
 		}
+		if p.Cat == "early" {
+			out = append(out, viol("C04", "slashed-only-for-a-request-that-timed-out", kind, p.Disc, p.Detail))
+		}
 	}
 	// the service_slash events are not part of the property: they are only counted
 	for p, n := range wantEvs {
